@@ -203,8 +203,8 @@ impl Property for C20 {
     }
     fn budget(&self, tier: Tier) -> Budget {
         match tier {
-            Tier::Quick => Budget { cases: 6000, min_len: 8, max_len: 80 },
-            Tier::Thorough => Budget { cases: 300_000, min_len: 8, max_len: 100 },
+            Tier::Quick => Budget { cases: 8000, min_len: 8, max_len: 80 },
+            Tier::Thorough => Budget { cases: 300000, min_len: 8, max_len: 100 },
         }
     }
 
